@@ -821,8 +821,8 @@ def _check_assert_inventory(prog, rep, rule, fid, site, key, at):
     if cur is None or cur == want:
         return
     st = relation_strengthened(want, cur)
-    if st is False:
-        return          # weakened: fewer panics, nothing to report here
+    if st is False or st is None:
+        return          # weakened (fewer panics), or rewritten over other operands (not comparable): nothing to report here
     rep.ob(rule, key + " | asserted relation", False,
            "the reviewed assert demanded `%s`; it now demands `%s`%s: the review does not cover the stronger condition (a value on the old boundary now panics)"
            % (want, cur, "" if st else " (different operands)"), at)
@@ -894,6 +894,16 @@ def check_refusal_inventory(prog, rep, rule, prefixes):
                 problems.append("refuses when `%s` instead of `%s`" % (same, f))
             else:
                 problems.append("the clause `%s` is gone" % f)
+        # A clause that vanished while a relation of another shape appeared was most likely *rewritten* (named temporaries, a
+        # combinator chain turned into a match, operands the normaliser renders differently): the two cannot be compared, and
+        # the rules of the property that are tied to this function decide it.  Reported are: an operator changed on the same
+        # operands, and a clause that is gone with nothing new in its place (a dropped check).
+        gone = [p_ for p_ in problems if p_.startswith("the clause")]
+        flipped = [p_ for p_ in problems if not p_.startswith("the clause")]
+        if gone and len(curset) >= len(gone) and not flipped:
+            rep.ob(rule, fid, True, "%d clause(s) rewritten into another shape (%d new relation(s)): not comparable, left to the property's own rules"
+                   % (len(gone), len(curset)), b.loc(), nontrivial=False)
+            continue
         rep.ob(rule, fid, not problems, "refusal relations as reviewed (plus %d new)" % len(curset) if not problems else
                "; ".join(problems)[:400], b.loc())
     rep.floor(rule, n, 1, "functions with reviewed refusal relations under %s" % (prefixes,))
